@@ -12,7 +12,7 @@
 (***************************************************************************)
 EXTENDS Integers, Sequences, FiniteSets, TLC
 
-NameClasses == {"plain", "space", "hash", "qmark", "pct", "colon", "nonascii", "nested", "empty", "indexroot", "indexnested", "plus", "amp"}
+NameClasses == {"dotfiles", "plain", "space", "hash", "qmark", "pct", "colon", "nonascii", "nested", "empty", "indexroot", "indexnested", "plus", "amp"}
 BundleVers == {"b1", "b2"}
 SxgVers == {"1b1", "1b2", "1b3"}
 EcKeyForms == {"sec1", "pkcs8", "sec1params"}      \* sec1params: what `openssl ecparam -genkey` writes, an EC PARAMETERS block before the key
@@ -54,10 +54,25 @@ SxgPipelines ==
        Step("dump-signedexchange -verify", {"sxg", "certcbor"}, [kind |-> "text"], [x |-> 0]) >> :
        v \in SxgVers, k \in EcKeyForms, c \in Curves, r \in {1, 16, 16384}, e \in {"1h", "168h"}, st \in {200, 404}, cc \in {"none", "public", "twolines"}, ct \in {"empty", "small", "multi"},
        nc \in {1, 2} }
+\* the flags of gen-signedexchange as a relation between argument text and file: header flags whose value contains the
+\* separator, the same name repeated (in several letter cases), padded and empty values, request headers (b1/b2), an
+\* explicit -date, the method, output to stdout; with the two debugging dumps requested
+HdrShapes == {"none", "colon", "repeat", "pad", "request"}
+SxgFlagPipelines ==
+  { << Step("gen-certurl", {"pemchain", "ocsp"}, [kind |-> "certcbor"], [ncerts |-> 1, curve |-> "p256", sct |-> FALSE]),
+       Step("gen-signedexchange", {"content", "pemchain", "eckey"}, [kind |-> "sxg", ver |-> v],
+            [ver |-> v, hdr |-> h, date |-> d, method |-> m, out |-> o]),
+       Step("dump-signedexchange -verify", {"sxg", "certcbor"}, [kind |-> "text"], [x |-> 0]) >> :
+       v \in SxgVers, h \in HdrShapes, d \in {"now", "fixed"}, m \in {"GET", "HEAD"}, o \in {"file", "stdout"} }
+\* the spelling of gen-bundle's -dir value: every spelling that names the same directory gives the same bundle
+DirSpellings == {"abs", "rel", "dotslash", "trailing", "dotend", "dslash", "updown", "cwd"}
+DirSpellingPipelines ==
+  { << Step("gen-bundle -dir", {"dir"}, [kind |-> "bundle", sign |-> "none", ver |-> v], [names |-> n, ver |-> v, base |-> b, override |-> "none", dirform |-> f]),
+       Step("dump-bundle", {"bundle"}, [kind |-> "text"], [x |-> 0]) >> : n \in {"plain", "nested", "dotfiles", "indexnested"}, v \in BundleVers, b \in {"root", "sub"}, f \in DirSpellings }
 HarPipelines ==
   { << Step("gen-bundle -har", {"har"}, [kind |-> "bundle", sign |-> "none", ver |-> v], [ver |-> v, har |-> h]),
        Step("dump-bundle", {"bundle"}, [kind |-> "text"], [x |-> 0]) >> : v \in BundleVers, h \in {"mixed"} }
-Pipelines == DirPipelines \cup CertPipelines \cup SxgPipelines \cup HarPipelines
+Pipelines == DirPipelines \cup CertPipelines \cup SxgPipelines \cup HarPipelines \cup SxgFlagPipelines \cup DirSpellingPipelines
 
 \* CLOSURE: whenever a later step consumes the kind an earlier step produced, that artefact is one the
 \* consumer is specified to accept
